@@ -12,9 +12,12 @@ Qed.
 
 Lemma sec_ok_found cl i s : sec_ok cl i s = true -> exists k, find_client cl i = Some k /\ c_secret k = s.
 Proof.
-  unfold sec_ok. destruct (find_client cl i) as [k|]; [|discriminate].
-  intro H. apply String.eqb_eq in H. eauto.
+  unfold sec_ok. intro H. apply andb_true_iff in H as [_ H]. destruct (find_client cl i) as [k|]; [|discriminate].
+  apply String.eqb_eq in H. eauto.
 Qed.
+
+Lemma sec_ok_nonempty cl i s : sec_ok cl i s = true -> nonempty s = true.
+Proof. unfold sec_ok. intro H. now apply andb_true_iff in H as [H _]. Qed.
 
 Lemma nonempty_false s : nonempty s = false -> s = "".
 Proof. unfold nonempty. intro H. apply negb_false_iff in H. now apply String.eqb_eq. Qed.
@@ -148,41 +151,71 @@ Proof.
     apply verify_client_leg_id in V as [V _]. now intros [= <-].
 Qed.
 
-Lemma proper_secret cl i s :
+(* what [proper] says for secret-based credentials *)
+Definition proper_sec (cl : list client) (post_only : bool) (i s : string) : bool :=
   match find_client cl i with
   | None => false
-  | Some k => nonempty i && String.eqb (c_secret k) s
-              && match c_auth k with AMNone => true | AMPkjwt => false | _ => nonempty s end
-  end = true ->
-  sec_ok cl i s = true /\ leg_secret_auth cl i s <> None /\
-  (nonempty i = true /\ exists k, find_client cl i = Some k /\ (nonempty s = true \/ c_auth k = AMNone)).
+  | Some k => nonempty i
+              && match c_auth k with
+                 | AMNone => (post_only && String.eqb s "") || (nonempty s && String.eqb (c_secret k) s)
+                 | AMPkjwt => false
+                 | _ => nonempty s && String.eqb (c_secret k) s
+                 end
+  end.
+
+Lemma proper_is_proper_sec cl c : proper cl c = true ->
+  match c with
+  | Basic i s | Both i s _ => proper_sec cl false i s = true
+  | Post i s => proper_sec cl true i s = true
+  | Assertion (Some x) _ => exists k, find_client cl x = Some k /\ c_auth k = AMPkjwt
+  | _ => False
+  end.
 Proof.
-  unfold sec_ok, leg_secret_auth. destruct (find_client cl i) as [k|] eqn:F; [|discriminate]. intro H.
-  apply andb_true_iff in H as [H H3]. apply andb_true_iff in H as [H1 H2]. rewrite H1, H2.
-  split; [reflexivity|]. split.
-  - unfold sec_ok. rewrite F, H2. destruct (c_auth k); discriminate.
-  - split; [reflexivity|]. exists k. split; [reflexivity|]. destruct (c_auth k); auto; discriminate.
+  unfold proper, proper_sec. destruct c as [|i s|i s|i s f|[x|] f]; try discriminate; cbn [cred_pair andb];
+    try (destruct (find_client cl i) as [k|]; [|discriminate]; destruct (c_auth k); auto).
+  - destruct s; [auto|]. intro H. apply andb_true_iff in H as [H1 H2]. rewrite H1, H2. apply orb_true_r.
+  - destruct (find_client cl x) as [k|]; [|discriminate]. destruct (c_auth k) eqn:A; try discriminate. eauto.
+Qed.
+
+Lemma proper_sec_leg cl b i s : proper_sec cl b i s = true -> leg_secret_auth cl i s <> None.
+Proof.
+  unfold proper_sec, leg_secret_auth. destruct (find_client cl i) as [k|] eqn:F; [|discriminate]. intro H.
+  apply andb_true_iff in H as [H1 H2]. rewrite H1.
+  destruct (c_auth k); try discriminate; unfold sec_ok; rewrite F; rewrite H2; discriminate.
+Qed.
+
+Lemma proper_sec_basic cl i s : proper_sec cl false i s = true -> sec_ok cl i s = true.
+Proof.
+  unfold proper_sec, sec_ok. destruct (find_client cl i) as [k|] eqn:F; [|discriminate]. intro H.
+  apply andb_true_iff in H as [H1 H2]. destruct (c_auth k); try discriminate; exact H2.
 Qed.
 
 Lemma proper_auth_revoke cl r c : proper cl c = true -> auth_revoke cl r c <> None.
 Proof.
-  unfold proper, auth_revoke. destruct c as [|i s|i s|i s f|[x|] f]; try discriminate; intro P.
-  - destruct (proper_secret _ _ _ P) as (S & L & _). destruct r; cbn.
-    + rewrite S. discriminate.
+  intro P. apply proper_is_proper_sec in P. unfold auth_revoke.
+  destruct c as [|i s|i s|i s f|[x|] f]; try contradiction.
+  - destruct r; cbn.
+    + rewrite (proper_sec_basic _ _ _ P). discriminate.
     + unfold verify_client_leg; cbn [cred_pair]. fold (leg_secret_auth cl i s).
-      destruct (leg_secret_auth cl i s); [discriminate|congruence].
-  - destruct (proper_secret _ _ _ P) as (S & L & N & k & F & A). destruct r; cbn.
-    + rewrite N, F. destruct (nonempty s) eqn:NS.
-      * rewrite S. discriminate.
-      * destruct A as [A|A]; [discriminate|]. rewrite A. discriminate.
+      pose proof (proper_sec_leg _ _ _ _ P). destruct (leg_secret_auth cl i s); [discriminate|congruence].
+  - destruct r; cbn.
+    + unfold proper_sec in P. destruct (find_client cl i) as [k|] eqn:F; [|discriminate].
+      apply andb_true_iff in P as [N P]. rewrite N.
+      destruct (nonempty s) eqn:NS.
+      * assert (S : sec_ok cl i s = true).
+        { unfold sec_ok. rewrite NS, F. unfold nonempty in NS.
+          destruct (c_auth k); try discriminate; cbn in P; try exact P.
+          apply orb_true_iff in P as [P|P]; [|exact P].
+          apply String.eqb_eq in P. subst s. discriminate. }
+        rewrite S. discriminate.
+      * destruct (c_auth k); try discriminate; cbn in P; try (apply andb_true_iff in P as [P _]; discriminate).
     + unfold verify_client_leg; cbn [cred_pair]. fold (leg_secret_auth cl i s).
-      destruct (leg_secret_auth cl i s); [discriminate|congruence].
-  - destruct (proper_secret _ _ _ P) as (S & L & _). destruct r; cbn.
-    + rewrite S. discriminate.
+      pose proof (proper_sec_leg _ _ _ _ P). destruct (leg_secret_auth cl i s); [discriminate|congruence].
+  - destruct r; cbn.
+    + rewrite (proper_sec_basic _ _ _ P). discriminate.
     + unfold verify_client_leg; cbn [cred_pair]. fold (leg_secret_auth cl i s).
-      destruct (leg_secret_auth cl i s); [discriminate|congruence].
-  - destruct r; cbn; [discriminate|].
-    destruct (find_client cl x) as [k|]; [|discriminate]. destruct (c_auth k); discriminate.
+      pose proof (proper_sec_leg _ _ _ _ P). destruct (leg_secret_auth cl i s); [discriminate|congruence].
+  - destruct P as (k & F & A). destruct r; cbn; [discriminate|]. rewrite F, A. discriminate.
 Qed.
 
 Definition auth_intro (cl : list client) (r : router) (c : cred) : option string :=
